@@ -83,8 +83,28 @@ func init() {
 
 // ---------------------------------------------------------------- generator
 
+var c14Full = false
+
 func c14Queries(nchanges int) []c14Query {
 	var qs []c14Query
+	if !c14Full {
+		// quick tier: a covering subset of the full list below
+		ignores := []int{0}
+		for i := 1; i <= nchanges; i++ {
+			ignores = append(ignores, i)
+		}
+		for _, ig := range ignores {
+			qs = append(qs, c14Query{Q: "excl", Ignore: ig})
+			for _, snaps := range [][]int{{1}, {2, 1}, {c14Snapd}} {
+				qs = append(qs, c14Query{Q: "many", Snaps: snaps, Ignore: ig})
+			}
+			qs = append(qs, c14Query{Q: "conflict", Snaps: []int{1}, Ignore: ig})
+			qs = append(qs, c14Query{Q: "conflict", Snaps: []int{2}, Ignore: ig, WithSnapst: true})
+			qs = append(qs, c14Query{Q: "conflict", Snaps: []int{2}, Ignore: ig, WithSnapst: true, Stale: true})
+		}
+		qs = append(qs, c14Query{Q: "many", Snaps: []int{1}, Ignore: 99}, c14Query{Q: "excl", Ignore: 99})
+		return qs
+	}
 	ignores := []int{0, 99}
 	for i := 1; i <= nchanges; i++ {
 		ignores = append(ignores, i)
@@ -125,7 +145,7 @@ func c14Exhaustive() []c14In {
 		for _, m := range modes {
 			for _, sh := range shapes {
 				for _, sr := range []bool{false, true} {
-					if m == 0 && sr {
+					if m != 1 && sr {
 						continue
 					}
 					ch := c14Change{Kind: k, Snapd: m, SnapdReady: sr, Tasks: sh}
@@ -167,8 +187,9 @@ func c14RandomState(r *vh.Rand) []c14Change {
 
 func c14GenDirect(r *vh.Rand, tier string, n int) []c14In {
 	if n == 0 {
-		n = 400
+		n = 200
 	}
+	c14Full = tier == "thorough"
 	ins := c14Exhaustive()
 	for i := 0; i < n; i++ {
 		chs := c14RandomState(r)
@@ -213,10 +234,13 @@ func c14Exec(in c14In) vh.Out {
 		chg := st.NewChange(ch.Kind, "verif")
 		ids = append(ids, chg.ID())
 		var coqTasks []string
+		// statuses are set after all tasks have been added: Change.IsReady is sticky (the ready channel is closed the first
+		// time every task of the change is ready), and a finished change gets no further tasks
+		var done []*state.Task
 		add := func(t *state.Task, snaps []int, ready bool) {
 			chg.AddTask(t)
 			if ready {
-				t.SetStatus(state.DoneStatus)
+				done = append(done, t)
 			}
 			coqTasks = append(coqTasks, fmt.Sprintf("(mkTask %s %s)", c14Ns(snaps), vh.CoqBool(ready)))
 		}
@@ -251,9 +275,12 @@ func c14Exec(in c14In) vh.Out {
 				if tk.Via == 0 {
 					t.Set("snap-setup", c14Sup(c14SnapName(tk.Snaps[0]), "5"))
 				} else {
-					holder := st.NewTask("download-snap-holder", "verif") // not part of any change: holds the snap-setup only
+					// the task holding the snap-setup has to belong to a change (State.Task returns nil otherwise): it is a
+					// further task of this change affecting the same snap
+					holder := st.NewTask("verif-c14-holder", "verif")
 					holder.Set("snap-setup", c14Sup(c14SnapName(tk.Snaps[0]), "5"))
 					t.Set("snap-setup-task", holder.ID())
+					add(holder, tk.Snaps, tk.Ready)
 				}
 			default:
 				t = st.NewTask("verif-c14-multi", "verif")
@@ -264,6 +291,9 @@ func c14Exec(in c14In) vh.Out {
 				t.Set("verif-snaps", names)
 			}
 			add(t, tk.Snaps, tk.Ready)
+		}
+		for _, t := range done {
+			t.SetStatus(state.DoneStatus)
 		}
 		// changeIsSnapdDowngrade is only consulted for refresh-snap / revert-snap changes; c_dg is what it returns
 		id := 0
